@@ -42,6 +42,15 @@ var c15Paths = []string{
 	"$[*][*]",
 	"$.*[*]",
 	"$.**{2 to 1}",
+	"$.**{last}.a",
+	"$.**{last}.*",
+	"$.**{last}[*]",
+	"$.**{2}.a",
+	"$.**{1 to 2}.*",
+	"$.**{0}.a",
+	"$.**{1}[*].a",
+	"$.**{last} ? (@ > 1)",
+	"$.** ? (@.a > 1)",
 }
 
 // C15_Paths: wildcard and recursive-descent paths on every JSON tree shape
